@@ -11,6 +11,7 @@ import (
 	"github.com/trustbloc/sidetree-core-go/pkg/dochandler"
 	"github.com/trustbloc/sidetree-core-go/pkg/document"
 	"github.com/trustbloc/sidetree-core-go/pkg/observer"
+	"github.com/trustbloc/sidetree-core-go/pkg/patch"
 	"github.com/trustbloc/sidetree-core-go/pkg/versions/1_0/txnprocessor"
 
 	"verif/harness/internal/emit"
@@ -367,6 +368,17 @@ func (p *iProcessor) Resolve(suffix string, _ ...document.ResolutionOption) (*pr
 	return &protocol.ResolutionModel{Doc: document.Document{}, Deactivated: p.deactivated[suffix]}, nil
 }
 
+// unanswerableCreate builds a create request whose only key is typed Ed25519VerificationKey2018 but carries an EC
+// P-256 JWK: the patch validator and the document validator accept it, the document transformer cannot render it.
+func unanswerableCreate(e *batchEnv, n int) []byte {
+	p, err := patch.NewAddPublicKeysPatch(fmt.Sprintf(`[{"id":"u%d","type":"Ed25519VerificationKey2018","purposes":["authentication"],"publicKeyJwk":{"kty":"EC","crv":"P-256","x":"PUymIqdtF_qxaAqPABSw-C-owT1KYYQbsMKFM-L9fJA","y":"nM84jDHCMOTGTh_ZdHq4dBBdo4Z5PkEOW9jA8z8IsGc"}}]`, n))
+	world.Must(err)
+	ks := e.kp.Keys
+	op := world.Build(world.Spec{Type: operation.TypeCreate, NextUpd: ks[n%len(ks)].Commitment(world.SHA256), NextRec: ks[(n+1)%len(ks)].Commitment(world.SHA256),
+		DeltaID: int64(n), Patches: []patch.Patch{p}, PatchOK: true, DValid: true, Origin: world.OriginValue(1), OriginID: 1})
+	return op.Request
+}
+
 func c15Intake(r *out.Run, g *out.Group, e *batchEnv, thorough bool) {
 	n := 300
 	if thorough {
@@ -409,15 +421,29 @@ func c15Intake(r *out.Run, g *out.Group, e *batchEnv, thorough bool) {
 					accepted = false
 					label += ":deactivated-did"
 				}
+			case 2:
+				// a create that passes the parser and the document validator but for which no response document can be
+				// built (a key declared Ed25519VerificationKey2018 over a P-256 JWK): answered with an error = refused
+				req = unanswerableCreate(e, i*10+j)
+				accepted = false
+				label = "create:unanswerable"
 			}
 			if accepted && op.Type != operation.TypeCreate && proc.deactivated[op.Suffix] {
 				accepted = false
 			}
+			isCreate := op.Type == operation.TypeCreate || label == "create:unanswerable"
+			qBefore, uBefore := len(w.ids), len(unpub.ids)
 			unpub.putOK = e.rng.Intn(5) != 0
 			w.addOK = e.rng.Intn(4) != 0
-			unpubType := op.Type == operation.TypeCreate || op.Type == operation.TypeUpdate
+			unpubType := isCreate || op.Type == operation.TypeUpdate
 			_, err := dh.ProcessOperation(req, 0)
 			id := lookup(req)
+			// whatever the reason: a call answered with an error has left nothing behind
+			if err != nil && (len(w.ids) != qBefore || len(unpub.ids) != uBefore) {
+				r.Direct = append(r.Direct, out.Direct{Oracle: "refused_at_intake_leaves_no_trace",
+					What: fmt.Sprintf("%s: ProcessOperation returned %q but the queue grew by %d and the unpublished store by %d", label, err.Error(), len(w.ids)-qBefore, len(unpub.ids)-uBefore),
+					Case: map[string]interface{}{"label": label, "request": string(req), "put_ok": unpub.putOK, "add_ok": w.addOK}})
+			}
 			labels = append(labels, fmt.Sprintf("%s put=%v add=%v -> err=%v", label, unpub.putOK, w.addOK, err != nil))
 			r.Count("intake", fmt.Sprintf("accepted=%v put=%v add=%v", accepted, unpub.putOK, w.addOK))
 			reqG = append(reqG, "("+emit.App("Build_intake_req", emit.Z(id), emit.Bool(accepted), emit.Bool(unpubType), emit.Bool(unpub.putOK), emit.Bool(w.addOK))+", "+emit.Bool(err == nil)+")")
